@@ -1324,8 +1324,10 @@ pub fn c17(ix: &Index) -> Vec<Viol> {
                     if d.duration_ns.abs_diff(r.duration_ns) > 2 {
                         out.push(v("C17", "to_span_records:duration", format!("to_span_records: {:?} duration {} vs pushed {}", r.name, r.duration_ns, d.duration_ns)));
                     }
-                    if d.begin_time_unix_ns.abs_diff(r.begin_time_unix_ns) > 1_000_000 {
-                        out.push(v("C17", "to_span_records:begin", format!("to_span_records: {:?} begin differs by more than 1 ms from the pushed copy", r.name)));
+                    // each conversion has its own clock anchor (two clock reads that can be
+                    // separated by a preemption): absolute times agree only up to that anchor
+                    if d.begin_time_unix_ns.abs_diff(r.begin_time_unix_ns) > 50_000_000 {
+                        out.push(v("C17", "to_span_records:begin", format!("to_span_records: {:?} begin differs by more than 50 ms from the pushed copy", r.name)));
                     }
                 } else {
                     // against the model: creation properties and local attachments
